@@ -143,6 +143,36 @@ func ForallKeys(m interface{}, p func(k uint64) bool) bool {
 	return true
 }
 
+// ForallKeys16 is ForallKeys for maps whose keys are 16-byte arrays (or a named type of that shape).
+func ForallKeys16(m interface{}, p func(k [16]byte) bool) bool {
+	v := reflect.ValueOf(m)
+	if v.Kind() != reflect.Map {
+		return false
+	}
+	for _, k := range v.MapKeys() {
+		var a [16]byte
+		reflect.Copy(reflect.ValueOf(&a).Elem(), k)
+		if !p(a) {
+			return false
+		}
+	}
+	return true
+}
+
+// Seen16(m, k): the iteration over the map m that is in progress (a range loop of the function under contract) has
+// already produced key k. Only meaningful to the generator (loop invariants); natively false.
+func Seen16(m interface{}, k [16]byte) bool { return false }
+
+// Exists reports whether p holds for some k in [lo, hi).
+func Exists(lo, hi int, p func(k int) bool) bool {
+	for k := lo; k < hi; k++ {
+		if p(k) {
+			return true
+		}
+	}
+	return false
+}
+
 // PrivateError: err is a sentinel created by errors.New in the initialisation of the package that declares it, so
 // no other package can return it. Decided by the generator from the package's init function; natively unknowable.
 func PrivateError(err error) bool { return true }
